@@ -3,6 +3,7 @@ package props
 import (
 	"fmt"
 	"net/url"
+	"sort"
 	"strings"
 	"time"
 
@@ -127,20 +128,26 @@ func c10(env *core.Env) {
 				// registry has ever answered 401 to may have been dropped, rightly)
 				startTime := w.now()
 				var cachedOK *issuedToken
+				var candidates []*issuedToken
 				req := parseNaive(p.required)
 				for _, it := range w.issued {
 					s := spans[it.callID]
 					if it.host == h.name && s != nil && s.end != 0 && s.end < sp.start &&
 						it.requested.contains(req) && it.granted.contains(req) && !it.revoked && !it.refused &&
 						startTime.Add(30*time.Second).Before(it.issuedAt.Add(it.lifetime)) {
-						cachedOK = it
+						candidates = append(candidates, it)
 					}
 				}
+				// (the harness's own map is iterated in Go's random order: sort)
+				sort.Slice(candidates, func(i, j int) bool { return candidates[i].token < candidates[j].token })
 				res := w.call(id, h.name, p.required, p.desired, false, false)
 				sp.end = sched.Seq()
-				if cachedOK != nil && (cachedOK.refused || cachedOK.revoked) {
-					// a concurrent call was told meanwhile that the registry no longer takes it
-					cachedOK = nil
+				for _, it := range candidates {
+					// (not one that a concurrent call was told meanwhile the registry no longer takes)
+					if !it.refused && !it.revoked {
+						cachedOK = it
+						break
+					}
 				}
 				checkC10Call(env, w, h, res, p.required, p.desired, cachedOK, func(callID int) bool {
 					s := spans[callID]
